@@ -236,12 +236,13 @@ def rule_replay(R):
     called = [n for n in re if outq.calls_to(f, ccode, f.bodies[n])]
     R.ob("replay/connect-rearms", len(called) >= 1, "Session::connect re-arms send progress before the handshake",
          where=ccode.span)
-    qs = set()
-    for n in called:
-        qs |= re[n]
+    sites = outq.rearm_sites(f)
     for q in outq.QUEUES:
-        R.ob("replay/%s" % q, q in qs,
-             "on a new transport every entry of `%s` restarts from byte 0 (state Write{written: 0})" % q)
+        how = [sites[n].get(q) for n in called if sites[n].get(q)]
+        R.ob("replay/%s" % q, "always" in how,
+             "on a new transport every entry of `%s` restarts from byte 0 (state Write{written: 0}), unconditionally: "
+             "a packet that was partially written on the old transport must not be continued in the middle%s"
+             % (q, "" if "always" in how else (" (the re-arm is conditional)" if how else " (no re-arm found)")))
 
 
 def rule_first_last(R):
